@@ -158,6 +158,8 @@ pub struct Scenario<'v> {
     /// number of device sessions planted with a live exchange (never evictable) and idle planted sessions
     pub fill_busy: usize,
     pub fill_idle: usize,
+    /// of the busy ones, how many are expired sessions (their peer stopped acknowledging) that still carry a live exchange
+    pub fill_expired: usize,
     pub with_fabric: bool,
 }
 
@@ -182,6 +184,7 @@ pub fn run_scenario(sc: &Scenario<'_>, tr: &mut Trace) -> End {
     }
     // fillers: planted secure sessions towards a node that does not exist (index 3 + ...), some holding a live exchange
     let mut held: Vec<Exchange<'_>> = Vec::new();
+    let mut to_expire: Vec<Exchange<'_>> = Vec::new();
     let mut filler_ids: Vec<(u32, bool)> = Vec::new();
     for k in 0..(sc.fill_busy + sc.fill_idle) {
         let mut s = ReservedSession::reserve_now(&dev, &crypto).unwrap();
@@ -195,6 +198,9 @@ pub fn run_scenario(sc: &Scenario<'_>, tr: &mut Trace) -> End {
         let busy = k < sc.fill_busy;
         if busy {
             held.push(Exchange::initiate_for_session(&dev, &crypto, id).unwrap());
+            if k < sc.fill_expired {
+                to_expire.push(Exchange::initiate_for_session(&dev, &crypto, id).unwrap());
+            }
         }
         filler_ids.push((id, busy));
     }
@@ -277,7 +283,17 @@ pub fn run_scenario(sc: &Scenario<'_>, tr: &mut Trace) -> End {
         }
     };
 
-    let devside = async { select4(dev.run(&crypto, Tx(net.clone(), 0), Rx(net.clone(), 0), NoNetwork), responder.run::<4>(), busy_responder.run::<1>(), dm.run()).coalesce().await };
+    // sessions whose peer never acknowledges: a reliable send runs out of retransmissions, the session is marked expired,
+    // the exchange stays alive
+    let expirer = async {
+        for ex in to_expire.iter_mut() {
+            let _ = ex.send(rs_matter::transport::exchange::MessageMeta::new(0x7777, 1, true), &[1]).await;
+        }
+        core::future::pending::<Result<(), Error>>().await
+    };
+    let devside = async {
+        select(select4(dev.run(&crypto, Tx(net.clone(), 0), Rx(net.clone(), 0), NoNetwork), responder.run::<4>(), busy_responder.run::<1>(), dm.run()).coalesce(), expirer).coalesce().await
+    };
     let i1 = async { select(inis[0].run(&crypto, Tx(net.clone(), 1), Rx(net.clone(), 1), NoNetwork), initiator(0)).await };
     let i2 = async { select(inis[1].run(&crypto, Tx(net.clone(), 2), Rx(net.clone(), 2), NoNetwork), initiator(1)).await };
     let i3 = async { select(inis[2].run(&crypto, Tx(net.clone(), 3), Rx(net.clone(), 3), NoNetwork), initiator(2)).await };
@@ -625,13 +641,14 @@ pub fn run_scenario(sc: &Scenario<'_>, tr: &mut Trace) -> End {
         .map(|s| json!({"mode": mode_name(s.mode), "reserved": s.reserved, "expired": s.expired, "i": s.peer_addr_port as i64 - 5540, "exchanges": s.exchanges.len()})).collect();
     let fillers_alive = filler_ids.iter().filter(|(id, _)| snap.sessions.sessions.iter().any(|s| s.id == *id)).count();
     let busy_fillers_alive = filler_ids.iter().filter(|(id, b)| *b && snap.sessions.sessions.iter().any(|s| s.id == *id)).count();
+    let expired_fillers = filler_ids.iter().filter(|(id, _)| snap.sessions.sessions.iter().any(|s| s.id == *id && s.expired)).count();
     for e in events.borrow_mut().drain(..) {
         tr.ev(e);
     }
     tr.ev(json!({"ev": "End", "how": format!("{:?}", end), "left": left, "n_plain": left_count(&left, "plain"), "n_pase": left_count(&left, "pase"), "n_case": left_count(&left, "case"),
                  "n_reserved": left.iter().filter(|l| l["reserved"] == true).count(), "n_exch": left.iter().map(|l| l["exchanges"].as_u64().unwrap()).sum::<u64>(),
                  "marker": snap.pase.session_timeout.map(|(exp, _)| exp > sim::now_ms()).unwrap_or(false),
-                 "left_idle": left.iter().all(|l| l["reserved"] == false && l["exchanges"] == 0), "fillers_alive": fillers_alive, "busy_fillers": sc.fill_busy, "busy_fillers_alive": busy_fillers_alive,
+                 "left_idle": left.iter().all(|l| l["reserved"] == false && l["exchanges"] == 0), "fillers_alive": fillers_alive, "busy_fillers": sc.fill_busy, "busy_fillers_alive": busy_fillers_alive, "expired_fillers": expired_fillers,
                  "cancelled": n_cancelled.get(), "window_open": snap.pase.window_open, "t": sim::now_ms()}));
     drop(held);
     end
